@@ -2,6 +2,7 @@
 """automut_tests.py <list.json>: stage 2 for the given mutant files (those no check fired on): run the pinned baseline
 tests; record tests_pass in tools/automut_last.json and print the survivors."""
 import sys, os, json, subprocess, tempfile, shutil
+subprocess.run(["/verif/tools/trimcache.sh"])  # keep the Go build cache bounded: every scratch copy adds entries
 from concurrent.futures import ThreadPoolExecutor
 todo = json.load(open(sys.argv[1]))
 WANT = set(json.load(open("/root/.vp/BASELINE.json"))["stable_pass"])
